@@ -10,6 +10,7 @@ import (
 	"time"
 
 	"github.com/luthersystems/elps/lisp"
+	"github.com/luthersystems/elps/parser"
 	"github.com/luthersystems/elps/verifharness/gen"
 	"github.com/luthersystems/elps/verifharness/vcommon"
 	"pgregory.net/rapid"
@@ -602,11 +603,157 @@ func checkEmptyLoop(e EmptyLoop, c *vcommon.Ctx) *vcommon.Failure {
 	return nil
 }
 
+// ---------- every entry point starts with a full budget, and only entry points do ----------
+
+type EPCall struct {
+	Entry string `json:"entry"`
+	Work  int    `json:"work"`
+}
+
+type EPCase struct {
+	Budget int      `json:"budget"`
+	Calls  []EPCall `json:"calls"`
+}
+
+var epEntries = []string{"load", "loadctx", "eval", "evalctx", "evalsexpr", "funcall", "funcallctx", "funcall-map", "funcallctx-map",
+	"funcall-sort", "specialop-progn", "macrocall", "loadprogram", "funcall-apply"}
+
+const epPrelude = `
+(defun burn (n) (if (<= n 0) 'done (burn (- n 1))))
+(defun burn-each (x) (burn 3) x)
+(defmacro mburn (n) (burn n) ''expanded)
+`
+
+func genEP() *rapid.Generator[EPCase] {
+	return rapid.Custom(func(t *rapid.T) EPCase {
+		c := EPCase{Budget: rapid.IntRange(20, 400).Draw(t, "budget")}
+		n := rapid.IntRange(2, 8).Draw(t, "ncalls")
+		for i := 0; i < n; i++ {
+			c.Calls = append(c.Calls, EPCall{Entry: rapid.SampledFrom(epEntries).Draw(t, "entry"), Work: rapid.IntRange(0, 60).Draw(t, "work")})
+		}
+		return c
+	})
+}
+
+func epParse(src string) *lisp.LVal {
+	exprs, err := parser.NewReader().Read("ep.lisp", strings.NewReader(src))
+	if err != nil || len(exprs) != 1 {
+		panic(fmt.Sprintf("epParse %q: %v", src, err))
+	}
+	return exprs[0]
+}
+
+func epDo(rt *vcommon.Rt, c EPCall) *lisp.LVal {
+	env := rt.Env
+	ctx := context.Background()
+	w := c.Work
+	src := fmt.Sprintf("(burn %d)", w)
+	get := func(name string) *lisp.LVal { return env.GetGlobal(lisp.Symbol(name)) }
+	ints := func(n int) *lisp.LVal {
+		cells := make([]*lisp.LVal, n)
+		for i := range cells {
+			cells[i] = lisp.Int(n - i)
+		}
+		return lisp.QExpr(cells)
+	}
+	switch c.Entry {
+	case "load":
+		return env.LoadString("ep.lisp", src)
+	case "loadctx":
+		return env.LoadStringContext(ctx, "ep.lisp", src)
+	case "eval":
+		return env.Eval(epParse(src))
+	case "evalctx":
+		return env.EvalContext(ctx, epParse(src))
+	case "evalsexpr":
+		return env.EvalSExpr(epParse(src))
+	case "funcall":
+		return env.FunCall(get("burn"), lisp.SExpr([]*lisp.LVal{lisp.Int(w)}))
+	case "funcallctx":
+		return env.FunCallContext(ctx, get("burn"), lisp.SExpr([]*lisp.LVal{lisp.Int(w)}))
+	case "funcall-map":
+		// a host-applied builtin whose callbacks re-enter evaluation
+		return env.FunCall(get("lisp:map"), lisp.SExpr([]*lisp.LVal{lisp.Quote(lisp.Symbol("list")), get("burn-each"), ints(w / 4)}))
+	case "funcallctx-map":
+		return env.FunCallContext(ctx, get("lisp:map"), lisp.SExpr([]*lisp.LVal{lisp.Quote(lisp.Symbol("list")), get("burn-each"), ints(w / 4)}))
+	case "funcall-sort":
+		return env.FunCall(get("lisp:stable-sort"), lisp.SExpr([]*lisp.LVal{get("lisp:<"), ints(w / 4), get("burn-each")}))
+	case "funcall-apply":
+		return env.FunCall(get("lisp:apply"), lisp.SExpr([]*lisp.LVal{get("burn"), lisp.QExpr([]*lisp.LVal{lisp.Int(w)})}))
+	case "specialop-progn":
+		return env.SpecialOpCall(get("lisp:progn"), lisp.SExpr([]*lisp.LVal{epParse(fmt.Sprintf("(burn %d)", w/2)), epParse(fmt.Sprintf("(burn %d)", w-w/2))}))
+	case "macrocall":
+		return env.MacroCall(get("mburn"), lisp.SExpr([]*lisp.LVal{lisp.Int(w)}))
+	default: // loadprogram
+		p, err := lisp.ReadProgram(parser.NewReader(), "ep.lisp", strings.NewReader(src))
+		if err != nil {
+			panic(err)
+		}
+		return env.LoadProgram(p)
+	}
+}
+
+func epRuntime(budget int64) *vcommon.Rt {
+	rt := vcommon.NewRuntime(vcommon.Cfg{NoStdlib: true, MaxSteps: unlimited})
+	if o := rt.Load(epPrelude); o.IsErr {
+		panic("ep prelude: " + o.Msg)
+	}
+	rt.Apply(vcommon.Cfg{MaxSteps: budget})
+	return rt
+}
+
+func checkEP(c EPCase, ctx *vcommon.Ctx) *vcommon.Failure {
+	if c.Budget < 1 || len(c.Calls) == 0 {
+		return nil
+	}
+	rt := epRuntime(int64(c.Budget))
+	var log strings.Builder
+	total := int64(0)
+	for i, call := range c.Calls {
+		// the call's own cost, measured alone in a fresh runtime
+		fresh := epRuntime(unlimited)
+		fo := fresh.Observe(epDo(fresh, call))
+		if fo.IsErr {
+			return vcommon.Failf("entry/baseline-error", "baseline %s work=%d failed: %s", call.Entry, call.Work, fo.Msg)
+		}
+		cost := fresh.Env.Runtime.Steps()
+		total += cost
+		out := rt.Observe(epDo(rt, call))
+		fmt.Fprintf(&log, "#%d %s work=%d cost=%d -> %s\n", i, call.Entry, call.Work, cost, outcome(out))
+		ctx.Class("entry/" + call.Entry)
+		if out.Panic {
+			return vcommon.Failf("internal-panic", "internal panic: %s\n%s", out.Msg, log.String())
+		}
+		if cost <= int64(c.Budget) {
+			if out.IsErr {
+				return vcommon.Failf("entry/no-refill/"+call.Entry, "budget %d: call #%d (%s) needs only %d steps on its own but failed with %s: a new top-level evaluation did not start with a full budget\n%s", c.Budget, i, call.Entry, cost, outcome(out), log.String())
+			}
+			if got := rt.Env.Runtime.Steps(); got != cost {
+				return vcommon.Failf("entry/step-count/"+call.Entry, "budget %d: call #%d (%s) used %d steps, %d when run alone\n%s", c.Budget, i, call.Entry, got, cost, log.String())
+			}
+		} else {
+			ctx.Class("over-budget")
+			if !(out.IsErr && out.Cond == "step-limit-exceeded") {
+				return vcommon.Failf("entry/over-budget-not-stopped/"+call.Entry, "budget %d: call #%d (%s) needs %d steps but ended with %s: nested evaluation refilled the budget\n%s", c.Budget, i, call.Entry, cost, outcome(out), log.String())
+			}
+		}
+		if len(rt.Env.Runtime.Stack.Frames) != 0 || rt.Env.Runtime.EvalNesting() != 0 {
+			return vcommon.Failf("entry/dirty-runtime", "frames %d nesting %d\n%s", len(rt.Env.Runtime.Stack.Frames), rt.Env.Runtime.EvalNesting(), log.String())
+		}
+	}
+	if total > int64(c.Budget) {
+		ctx.NonTrivial(log.String())
+		ctx.Note(log.String())
+	}
+	return nil
+}
+
 func TestCheck(t *testing.T) {
 	vcommon.Main(t, "C04",
 		vcommon.S("budget", 2400, 50000, genBudget(), checkBudget),
 		vcommon.S("cancel", 1600, 30000, genCancel(), checkCancel),
 		vcommon.S("bounds", 24000, 500000, genDepth(), checkDepth),
+		vcommon.S("entry-points", 6000, 150000, genEP(), checkEP),
 		vcommon.S("empty-dotimes", 800, 20000, rapid.Custom(func(t *rapid.T) EmptyLoop {
 			return EmptyLoop{N: rapid.IntRange(2, 300).Draw(t, "n"), Budget: rapid.IntRange(1, 320).Draw(t, "budget"), Huge: rapid.IntRange(0, 19).Draw(t, "huge") == 0}
 		}), checkEmptyLoop),
